@@ -193,6 +193,32 @@ def build(shape, n, pats):
         g.add("  m = 1")
         g.add("  call ", U(n, "PROC"), "(m)")
         g.add("end subroutine caller")
+    elif shape == "binding_same_name":
+        # a type-bound procedure whose binding is spelled like its implementation: two entities, one spelling,
+        # both on the binding line
+        f.add("module bind_mod")
+        f.add("  implicit none")
+        f.add("  type :: shape_t")
+        f.add("    real :: r")
+        f.add("  contains")
+        f.add("    procedure :: ", D(n, "BIND"), " => ", U(n, "PROC"))
+        f.add("  end type shape_t")
+        f.add("contains")
+        f.add("  subroutine ", D(n, "PROC"), "(self)")
+        f.add("    class(shape_t) :: self")
+        f.add("    self%r = 1.0")
+        f.add("  end subroutine ", U(n, "PROC"))
+        f.add("  subroutine work(obj)")
+        f.add("    type(shape_t) :: obj")
+        f.add("    character(len=40) :: text")
+        f.add("    integer :: other")
+        for p in pats:
+            if p in ("comment", "literal"):
+                emit(f, "    ", p, n, "PROC")
+        f.add("    call obj%", U(n, "BIND"), "()")
+        f.add("    call ", U(n, "PROC"), "(obj)")
+        f.add("  end subroutine work")
+        f.add("end module bind_mod")
     elif shape == "interface_body":
         # the entity is an external function declared by an interface body: its uses lie outside the interface block
         # (program body, internal procedure), the block only holds the declaration
@@ -357,7 +383,7 @@ def jobs(maxlen):
                         continue
                     k += 1
                     yield (shape, n, pats, NEW_NAMES[k % len(NEW_NAMES)])
-    for shape in ("interface_body", "abstract_interface"):
+    for shape in ("interface_body", "abstract_interface", "binding_same_name"):
         for n in NAMES:
             if "$" in n:
                 continue
